@@ -125,10 +125,12 @@ Section Hist.
     then upd data (Z.to_nat (address 1 (h_nx c) ix)) (fun v => nadd O v (snd s))
     else data.
 
-  (* scalar variables: guarded by can_accumulate_data; vector (gathered) variables: the
-     implementation accumulates unconditionally (see colvarbias_histogram::update) *)
+  (* scalar variables: one sample of weight 1 per step; gathered vector variables: one sample per component
+     with the configured weight; both guarded by can_accumulate_data (colvarbias_histogram::update; the vector
+     branch had no guard before the fix "a histogram of gathered vector variables counted steps that are not
+     eligible for accumulation") *)
   Definition hist_step (vector_mode : bool) (c : hist_cfg) (data : list T) (i : hist_in) : list T :=
-    if vector_mode || can_accumulate c i
+    if can_accumulate c i
     then fold_left (acc_sample c) (hi_vals i) data
     else data.
 
